@@ -241,6 +241,10 @@ class OptRunner:
 
     def raw_step(self, s: dict) -> Exception | None:
         """Edits + gradients + optimizer.step() without any verification (used by differential oracles)."""
+        if s.get("ckpt"):
+            f = self.checkpoint_op(s["ckpt"])
+            if f:
+                return RuntimeError(f[0].signature)
         if "edits" in s:
             self.apply_edits(s["edits"])
         grads = self.make_grads(s)
@@ -254,6 +258,7 @@ class OptRunner:
         for gi, ps in enumerate(self.params):
             if any(g is not None for g in grads[gi]):
                 self.t[gi] += 1
+        self.nsteps += 1
         return None
 
     def named_params(self) -> list[tuple[str, torch.nn.Parameter]]:
